@@ -125,14 +125,23 @@ func WithToken() OptionFn {
 		p := h.dataDir
 		p = path.Join(p, "token")
 
-		if _, err := os.Stat(p); os.IsNotExist(err) {
-			ioutil.WriteFile(p, []byte(uid), 0600)
-		} else if err != nil /* other error */ {
+		if data, err := ioutil.ReadFile(p); err == nil {
+			// an interrupted earlier start may have left an empty token file
+			// behind: that is no identity, generate one as if it were absent
+			if len(data) > 0 {
+				uid = string(data)
+				h.token = uid
+				return nil
+			}
+		} else if !os.IsNotExist(err) {
 			return err
-		} else if data, err := ioutil.ReadFile(p); err != nil {
-			return err
-		} else {
-			uid = string(data)
+		}
+
+		// write the new token to a temporary file first, so that a kill at any
+		// moment leaves either no token or a complete one
+		tmp := p + ".tmp"
+		if err := ioutil.WriteFile(tmp, []byte(uid), 0600); err == nil {
+			os.Rename(tmp, p)
 		}
 
 		h.token = uid
